@@ -135,11 +135,17 @@ def _min_len(c: Ctx, f: Func, e: ast.AST, at: ast.AST, depth: int = 0) -> int | 
         out = None
         for d in rd.at_ast(at, e.func.value.id):
             v = d.value
-            if not (d.kind in ("assign", "walrus") and isinstance(v, ast.Call) and isinstance(v.func, ast.Attribute) and isinstance(v.func.value, ast.Name)
-                    and v.func.attr in ("search", "match", "fullmatch")):
+            if not (d.kind in ("assign", "walrus") and isinstance(v, ast.Call) and isinstance(v.func, ast.Attribute)
+                    and isinstance(v.func.value, (ast.Name, ast.IfExp)) and v.func.attr in ("search", "match", "fullmatch")):
                 return None
-            names = [v.func.value.id]
-            if (f.module.rel, names[0]) not in regs:
+            if isinstance(v.func.value, ast.IfExp):
+                # (RE_A if flag else RE_B).search(...): the shorter of the two groups
+                if not (isinstance(v.func.value.body, ast.Name) and isinstance(v.func.value.orelse, ast.Name)):
+                    return None
+                names = [v.func.value.body.id, v.func.value.orelse.id]
+            else:
+                names = [v.func.value.id]
+            if (f.module.rel, names[0]) not in regs and len(names) == 1:
                 pds = list(rd.at_ast(d.stmt, names[0])) if d.stmt is not None else []
                 if len(pds) == 1 and isinstance(pds[0].value, ast.IfExp) and isinstance(pds[0].value.body, ast.Name) and isinstance(pds[0].value.orelse, ast.Name):
                     names = [pds[0].value.body.id, pds[0].value.orelse.id]
